@@ -7,6 +7,7 @@ from ..model import AnalysisError, attr_path, dotted, local_aliases, unparse, wa
 from ..report import Check
 from .loader import from_protobuf_cache, lookup_bindings, reference_sites, stage_order
 from .ownership import ownership
+from .purity import codec_state
 
 RULES = {
     "R09.1": "references resolve only through the loading IR's table, with a kind check that "
@@ -15,6 +16,8 @@ RULES = {
     "R09.2": "producer-before-consumer in the staged decoders of Module and IR",
     "R09.3": "every decoder registers the node it returns (so later stages can find it)",
     "R09.4": "lazy AuxData resolves UUID/Offset entries against the loading IR",
+    "R09.5": "no state shared between loads on the decode path (codecs, AuxData): a node resolved "
+             "for one IR can never be handed to another",
 }
 
 
@@ -43,6 +46,7 @@ def run(chk: Check) -> None:
             k += 1
     chk.floor("R09.3", "loader registrations", k, 7)
     _lazy_auxdata(chk)
+    codec_state(chk, "R09.5", ("serialization", "auxdata", "offset"))
 
 
 def _lazy_auxdata(chk: Check) -> None:
